@@ -104,4 +104,5 @@ func (y *sys) coordRelease(id int) {
 		}
 	})
 	y.t.Event("Ret", rt.M{"err": errStr(rerr)})
+	y.kick()
 }
